@@ -45,11 +45,11 @@ impl<'a> TreeWalkingInterpreter<'a> {
     }
 
     fn unary(&self, right: &Expression, operator: Operator) -> Result<Value> {
-        let right = self.expression(right);
+        let right = self.expression(right)?; // an error of the operand takes precedence
 
-        match (operator, right) {
-            (Operator::Minus, Ok(rhs)) => -rhs,
-            (Operator::Not, Ok(rhs)) => !rhs,
+        match operator {
+            Operator::Minus => -right,
+            Operator::Not => !right,
             _ => Err(Error::InvalidUnaryOperator(operator)),
         }
     }
